@@ -1,8 +1,8 @@
 (* C05 — address pools neither leak nor miscount.  Statements only; proofs in Proofs/*.v. *)
 From Coq Require Import NArith List.
 From Verif Require Import Base.Word Model.PoolMap Model.Geometry Model.PoolSpec Model.Bitmap Model.Epoch
-  Model.FreeList
-  Proofs.GeometryProofs Proofs.BitmapProofs Proofs.EpochProofs Proofs.FreeListProofs.
+  Model.FreeList Model.Srv6Pool
+  Proofs.GeometryProofs Proofs.BitmapProofs Proofs.EpochProofs Proofs.FreeListProofs Proofs.Srv6PoolProofs.
 From Verif Require Model.DistAlloc Proofs.DistAllocProofs.   (* not imported: its epoch model reuses names *)
 Import ListNotations.
 Local Open Scope N_scope.
@@ -184,3 +184,94 @@ Theorem C05_dist_memory_store_agree_partial : forall c ops,
   DistAllocProofs.hist_ok c ops = true -> DistAllocProofs.Agree (DistAlloc.drun c ops).
 Proof. exact DistAllocProofs.session_agree. Qed.
 Print Assumptions C05_dist_memory_store_agree_partial.
+
+(* ---------- the pools under their only real caller: dhcpv6.Server (Model/Srv6Pool.v = the server's
+   lease table and handlers composed over the free-list Model of AddressPool and PrefixPool).  "Live
+   subscriber" exists only here: a client whose last Advertise / Reply lifetimes still run ([v_ga] /
+   [v_gp], ghost) and that has not Released / Declined.  Every history of messages, every configuration
+   (either pool present or not), every pair of universes without duplicates. ---------- *)
+(* both pools keep the free-list invariant and conservation (every unit is free or allocated to a DUID,
+   nothing is set aside), and what a lease records is allocated to that client in the pool *)
+Theorem C05_srv6_pools_conserved : forall k ms, NoDup (k_ua k) -> NoDup (k_up k) -> SInv k (run6 k ms).
+Proof. exact run6_inv. Qed.
+Print Assumptions C05_srv6_pools_conserved.
+
+(* a Release puts EVERYTHING the lease records back into circulation: the address AND the delegated prefix
+   are on their free lists, no DUID holds them, the lease is gone (Decline does the same) *)
+Theorem C05_srv6_release_returns : forall k ms d l, NoDup (k_ua k) -> NoDup (k_up k) ->
+  aget d (v_l (run6 k ms)) = Some l ->
+  let s' := next6 k (run6 k ms) (MRelease d) in
+  aget d (v_l s') = None /\
+  (forall u, q_na l = Some u -> In u (f_avail (v_a s')) /\ forall d', aget d' (f_alloc (v_a s')) <> Some u) /\
+  (forall u, q_pd l = Some u -> In u (f_avail (v_p s')) /\ forall d', aget d' (f_alloc (v_p s')) <> Some u).
+Proof. exact release_returns_run. Qed.
+Print Assumptions C05_srv6_release_returns.
+
+Theorem C05_srv6_decline_is_release : forall k s d, next6 k s (MDecline d) = next6 k s (MRelease d).
+Proof. exact decline_is_release. Qed.
+Print Assumptions C05_srv6_decline_is_release.
+
+(* renew_protects, full: whatever a lease records stays recorded and allocated to the client through ANY
+   later messages of any clients (Solicit, Request, Renew, Rebind, other clients' Release / Decline, time)
+   except the client's own Release / Decline *)
+Theorem C05_srv6_lease_never_reclaimed : forall k ms d l more, NoDup (k_ua k) -> NoDup (k_up k) ->
+  aget d (v_l (run6 k ms)) = Some l -> forallb (fun m => negb (leaves d m)) more = true ->
+  exists l', aget d (v_l (run6 k (ms ++ more))) = Some l' /\
+    (forall u, q_na l = Some u -> q_na l' = Some u /\ aget d (f_alloc (v_a (run6 k (ms ++ more)))) = Some u) /\
+    (forall u, q_pd l = Some u -> q_pd l' = Some u /\ aget d (f_alloc (v_p (run6 k (ms ++ more)))) = Some u).
+Proof. exact lease_kept. Qed.
+Print Assumptions C05_srv6_lease_never_reclaimed.
+
+(* "every unit marked allocated in a pool is held by a live subscriber": refuted twice on the code as it is
+   (known findings K05f, marker 506: Release frees only what the lease records, an Advertise reserves
+   without a lease; K05g, marker 507: nothing ever expires) ... *)
+Theorem C05_srv6_release_leaves_advertised_refuted :
+  let s := run6 k_demo [MSolicit 1 false true true; MRequest 1 true true false; MRelease 1] in
+  aget 1 (v_l s) = None /\ aget 1 (f_alloc (v_p s)) = Some 20 /\ aget 1 (v_gp s) = None /\
+  quiet k_demo [MSolicit 1 false true true; MRequest 1 true true false; MRelease 1] = false.
+Proof. exact release_leaves_advertised_refuted. Qed.
+Print Assumptions C05_srv6_release_leaves_advertised_refuted.
+
+Theorem C05_srv6_never_expires_refuted :
+  let s := run6 k_demo [MRequest 1 true true false; MTick 101] in
+  aget 1 (f_alloc (v_a s)) = Some 11 /\ aget 1 (v_ga s) = Some 100 /\ v_now s = 101 /\
+  reply6 k_demo s (MRequest 2 true true false) = P6Reply (XaErr 2) XaNone false /\
+  quiet k_demo [MRequest 1 true true false; MTick 101] = false.
+Proof. exact never_expires_refuted. Qed.
+Print Assumptions C05_srv6_never_expires_refuted.
+
+(* ... and proved under the decidable guard [quiet]: the history raises neither marker (every departing
+   client's lease covers what the pools hold for it; no lifetime runs out while the pool holds the unit) *)
+Theorem C05_srv6_allocated_has_live_holder_partial : forall k ms, NoDup (k_ua k) -> NoDup (k_up k) ->
+  quiet k ms = true ->
+  (forall d u, aget d (f_alloc (v_a (run6 k ms))) = Some u ->
+     exists t, aget d (v_ga (run6 k ms)) = Some t /\ v_now (run6 k ms) <= t) /\
+  (forall d u, aget d (f_alloc (v_p (run6 k ms))) = Some u ->
+     exists t, aget d (v_gp (run6 k ms)) = Some t /\ v_now (run6 k ms) <= t).
+Proof. exact quiet_live. Qed.
+Print Assumptions C05_srv6_allocated_has_live_holder_partial.
+
+Theorem C05_srv6_noaddrs_only_if_full_partial : forall k ms d, NoDup (k_ua k) -> NoDup (k_up k) ->
+  quiet k ms = true ->
+  reply6 k (run6 k ms) (MRequest d true true false) = P6Reply (XaErr 2) XaNone false ->
+  forall u, In u (k_ua k) ->
+    exists d' t, aget d' (f_alloc (v_a (run6 k ms))) = Some u /\ aget d' (v_ga (run6 k ms)) = Some t /\ v_now (run6 k ms) <= t.
+Proof. exact exhausted_only_if_full_a. Qed.
+Print Assumptions C05_srv6_noaddrs_only_if_full_partial.
+
+Theorem C05_srv6_noprefix_only_if_full_partial : forall k ms d, NoDup (k_ua k) -> NoDup (k_up k) ->
+  quiet k ms = true ->
+  reply6 k (run6 k ms) (MRequest d true false true) = P6Reply XaNone (XaErr 6) false ->
+  forall u, In u (k_up k) ->
+    exists d' t, aget d' (f_alloc (v_p (run6 k ms))) = Some u /\ aget d' (v_gp (run6 k ms)) = Some t /\ v_now (run6 k ms) <= t.
+Proof. exact exhausted_only_if_full_p. Qed.
+Print Assumptions C05_srv6_noprefix_only_if_full_partial.
+
+Example C05_srv6_guard_satisfiable :
+  let ms := [MSolicit 1 false true true; MRequest 1 true true true; MTick 60; MRenew 1 false true true; MTick 60;
+             MRequest 2 true false true; MRelease 2; MRequest 3 true false true] in
+  quiet k_demo ms = true /\
+  reply6 k_demo (run6 k_demo ms) (MRequest 4 true true false) = P6Reply (XaErr 2) XaNone false /\
+  aget 1 (v_l (run6 k_demo ms)) = Some {| q_na := Some 11; q_pd := Some 20 |} /\
+  aget 3 (f_alloc (v_p (run6 k_demo ms))) = Some 21.
+Proof. exact quiet_example. Qed.
